@@ -336,6 +336,39 @@ def user_type_name_grid(ck, tier):
     ck.notes["user_type_name_grid"] = {"programs": len(progs), "failing": len(bad)}
 
 
+def raw_mix_grid(ck, tier):
+    """a parameter declared / used once with and once without the raw prefix (`r#T` and `T` are the same name)"""
+    items = [("Debug, Clone, PartialEq", "pub struct S<T: ?::core::marker::Sized>(pub u8, pub r#T);"),
+             ("Debug, Clone, PartialEq", "pub struct S<r#T: ?::core::marker::Sized> { pub n: u8, pub tail: T }"),
+             ("Debug, PartialEq, Eq, Hash", "pub struct S<T>(pub u8, pub T) where r#T: ?::core::marker::Sized;"),
+             ("Debug, PartialEq, PartialOrd", "pub struct S<r#T>(pub u8, pub T) where T: ?::core::marker::Sized;"),
+             ("Debug, Clone, Default, PartialEq, Eq, PartialOrd, Ord, Hash", "pub enum E<r#T, U> { #[default] A, B(T, r#U), C { x: r#T, y: ::core::option::Option<U> } }"),
+             ("Debug, Clone, Default, PartialEq, Eq, Hash", "pub struct S<const r#N: usize, const M: usize>(pub [u8; N], pub [u16; r#M], pub ::dx_support::Cn<r#N>);"),
+             ("Add, Neg, Clone", "pub struct S<r#T>(pub T, pub r#T);"),
+             ("Deref, DerefMut", "pub struct S<r#T> { pub inner: ::std::vec::Vec<T> }"),
+             ("Debug, Clone, PartialEq", "pub struct S<r#type: ?::core::marker::Sized>(pub u8, pub r#type);")]
+    progs = []
+    for tr, it in items:
+        for entry in ("attr", "derive"):
+            progs.append("#![allow(dead_code, non_camel_case_types, non_upper_case_globals)]\n%s %s\n" % (rf.derive_head([x.strip() for x in tr.split(",")], entry), it))
+    wd = os.path.join(dx.WORK, "c13rm-%d" % os.getpid())
+
+    def comp(ix):
+        i, src = ix
+        ok, diags = dx.check_only("r%d" % i, src, wd)
+        return ok, dx.diag_summary(diags)[:3]
+    res = dx.pmap(comp, list(enumerate(progs)))
+    import shutil
+    shutil.rmtree(wd, ignore_errors=True)
+    events = [{"ev": "compiles", "rustc_ok": ok} for ok, _ in res]
+    n, bad, jst = dx.tlc_judge("Trace_Bounds", "Trace_Bounds.cfg", events, "c13rm")
+    ck.add_judge(n, jst)
+    for i in bad:
+        ck.violation({"family": "raw_mix", "scheme": "raw", "item": items[i // 2][1][:60], "codes": ",".join(sorted(set(d.get("code") or "?" for d in res[i][1])))},
+                     {"what": "a parameter spelled once with and once without `r#` is not recognised as the same name", "source": progs[i], "diagnostics": res[i][1]})
+    ck.notes["raw_mix_grid"] = {"programs": len(progs), "failing": len(bad)}
+
+
 PRIMS = set("bool char str u8 u16 u32 u64 u128 usize i8 i16 i32 i64 i128 isize f32 f64 core std alloc crate".split())
 
 
@@ -389,6 +422,7 @@ def c13(tier):
     type_name_grid(ck, tier, auto)
     user_expr_name_grid(ck, tier)
     user_type_name_grid(ck, tier)
+    raw_mix_grid(ck, tier)
     ck.cov["evaluations"] = ck.cov["traces_validated_against_impl"]
     ck.cov["distinct_nontrivial"] = len(ck.notes.get("events_per_family", {}))
     ck.cov["rule"] = ("every run-time family (clone, struct operators, impl operators, debug, default, deref, comparison sample) re-run under 4 renaming schemes "
